@@ -60,6 +60,8 @@ def cases(tier, seed):
     yield dict(kind='interleave', bound=2)
     # typed / multi-dimensional output buffers
     yield dict(kind='typedout')
+    # frames longer than 2^16 bytes (length prefix beyond 16 bits) and a long multi-frame stream, a few chunkings each
+    yield dict(kind='bigframe')
     for bs in ((1, 3, 7, 64, -1) if tier == 'quick' else (1, 2, 3, 5, 7, 11, 64, 4096, -1)):
         yield dict(kind='asdf', io_block_size=bs)
 
@@ -459,5 +461,33 @@ def run_typedout(case):
     return dict(problems=probs[:3], evals=n, traces=n, states=n, transitions=n, nt=[('typedout', n)], extra=dict(typed_output_runs=n))
 
 
+def run_bigframe(case):
+    import zlib
+    probs = []
+    n = 0
+    for nitems, isz, cbs in ((9000, 8, 1 << 22), (70000, 1, 1 << 22), (40000, 4, 50000)):
+        # incompressible-ish payload so the compressed frame stays long
+        rs = np.random.RandomState(12345 + nitems)
+        pay = rs.randint(0, 256, nitems * isz, dtype=np.uint8).tobytes()
+        arr = np.frombuffer(pay, dtype={1: 'u1', 4: 'u4', 8: 'u8'}[isz])
+        from abacusnbody.data.asdf import BloscCompressor
+        frames = [bytes(f) for f in BloscCompressor().compress(memoryview(arr), compression_block_size=cbs)]
+        stream = b''.join(frames)
+        L = len(stream)
+        if cbs > 65536 and max(len(f) for f in frames) <= 65536:
+            probs.append(dict(sig='harness:bigframe-too-small', msg=f'largest frame {max(len(f) for f in frames)}'))
+        first = len(frames[0])
+        plans = [[L], [1, L - 1], [3, L - 3], [4, L - 4], [5, L - 5], [first - 1, L - first + 1], [first, L - first] if L > first else [L],
+                 [first + 2, L - first - 2] if L > first + 2 else [L], [65536] * (L // 65536) + ([L % 65536] if L % 65536 else []),
+                 [4096] * (L // 4096) + ([L % 4096] if L % 4096 else []), [L // 2, L - L // 2]]
+        for chunks in plans:
+            chunks = [c for c in chunks if c > 0]
+            obs = Exec(stream, pay).run(chunks)
+            n += 1
+            if obs['err'] or obs['ret'] != len(pay) or obs['out'] != pay or not obs['guard_ok']:
+                probs.append(dict(sig='bigframe:differs', msg=f'{nitems} items x {isz}B, cbs={cbs}, frames {[len(f) for f in frames]}, chunks {chunks[:3]}..: err={obs["err"]} ret={obs["ret"]}'))
+    return dict(problems=probs[:3], evals=n, traces=n, states=n, transitions=n, nt=[('bigframe', n)], extra=dict(bigframe_runs=n))
+
+
 def run(case):
-    return {'interleave': run_interleave, 'typedout': run_typedout, 'reuse': run_reuse, 'bfs': run_bfs, 'brute': run_brute, 'roundtrip': run_roundtrip, 'asdf': run_asdf}[case['kind']](case)
+    return {'bigframe': run_bigframe, 'interleave': run_interleave, 'typedout': run_typedout, 'reuse': run_reuse, 'bfs': run_bfs, 'brute': run_brute, 'roundtrip': run_roundtrip, 'asdf': run_asdf}[case['kind']](case)
